@@ -23,7 +23,10 @@ func checkC17(w *World, r *Report, tier string) propMeta {
 	c17R1(w, r)
 	c17R2(w, r)
 	c17R3(w, r)
-	c03R4(w, r)           // entry sets never alias a pooled buffer
+	c03R4(w, r) // entry sets never alias a pooled buffer
+	c17R7(w, r)
+	c17R8(w, r, "C17.R8")
+	c03R8(w, r, "C17.R6") // readers interpret a block's recorded compression the same way
 	c03R6(w, r, "C17.R5") // nor do rows handed out by the allocating reader
 	c11R4(w, r)           // a copied block keeps the metadata its bytes were written with (struct copy, only location fields rewritten)
 	c06R4(w, r)           // entries are indexed only after the whole batch validated: a rejected batch leaves no entry behind
@@ -1112,5 +1115,112 @@ func filterFlagTables(w *World, r *Report, rule string) {
 				r.bad(rule, fmt.Sprintf("flags:bit%d", bit), "-", "the parser reads "+f+" for bit "+fmt.Sprint(bit)+" which the encoder never sets")
 			}
 		}
+	}
+}
+
+// c17R7: what is accumulated for one output file starts empty with that file.
+func c17R7(w *World, r *Report) {
+	const rule = "C17.R7"
+	r.rule(rule, "per-file accumulators are per-file: the blockFilterRegionWriter a file's filter region is buffered in is a zero-valued local of the function that creates the file (handleFlush, executeMergeGroup) — never state that outlives the file, which a failed attempt would leave non-empty for the next file", 2)
+	isRegionPtr := func(t types.Type) bool { return w.typeName(t) == "*blockFilterRegionWriter" }
+	n := 0
+	for _, name := range []string{"BloomSearchEngine.handleFlush", "BloomSearchEngine.executeMergeGroup"} {
+		root := fnOrUndecided(w, r, rule, name)
+		if root == nil {
+			continue
+		}
+		fns := append([]*ssa.Function{root}, root.AnonFuncs...)
+		seen := map[ssa.Value]bool{}
+		for _, fn := range fns {
+			eachInstr(fn, func(in ssa.Instruction) {
+				c := callOf(in)
+				if c == nil {
+					return
+				}
+				for _, a := range c.Args {
+					if !isRegionPtr(a.Type()) || seen[a] {
+						continue
+					}
+					seen[a] = true
+					v := a
+					if fv, ok := v.(*ssa.FreeVar); ok {
+						if b := freeVarBinding(fv); b != nil {
+							v = b
+						}
+					}
+					al, ok := v.(*ssa.Alloc)
+					local := ok && al.Parent() == root
+					// no store initialises it from elsewhere: the zero value
+					fresh := local
+					if local {
+						for _, ref := range *al.Referrers() {
+							if st, ok := ref.(*ssa.Store); ok && st.Addr == ssa.Value(al) {
+								if _, isZero := st.Val.(*ssa.Const); !isZero {
+									fresh = false
+								}
+							}
+						}
+					}
+					n++
+					r.check(fresh, rule, baseName(name)+":region-writer:"+w.calleeName(c), w.instrPos(in), "a zero-valued local of the file-creating function", baseName(name)+" buffers the file's filter sections in "+w.path(a)+", which outlives the file: sections left behind by a failed attempt are written into the next file's region — bytes that belong to no block, and BloomFilterOffset/BlockFilterRegionSize no longer describe the sections back to back")
+				}
+			})
+		}
+	}
+	if n < 2 {
+		r.undecided(rule, "sites", "-", fmt.Sprintf("expected the region writer to be used in handleFlush and executeMergeGroup, found %d uses", n))
+	}
+}
+
+// c17R8: what is committed is what the footer says.
+func c17R8(w *World, r *Report, rule string) {
+	r.rule(rule, "metadata frozen after the footer: in the functions that write a file (handleFlush, executeMergeGroup) no field of the FileMetadata value is stored to after WriteFileFooter was called with it — the object handed to MetaStore.Update is exactly what the file records about itself", 2)
+	n := 0
+	for _, name := range []string{"BloomSearchEngine.handleFlush", "BloomSearchEngine.executeMergeGroup"} {
+		fn := fnOrUndecided(w, r, rule, name)
+		if fn == nil {
+			continue
+		}
+		var md ssa.Value
+		for _, in := range w.callSitesIn(fn, "WriteFileFooter") {
+			md = callOf(in).Args[1]
+		}
+		if md == nil {
+			r.undecided(rule, baseName(name)+":footer", w.pos(fn.Pos()), "WriteFileFooter call not found")
+			continue
+		}
+		al, _ := stripToAlloc(md)
+		fl := newFlow(w, fn, namedCalls(w, map[string]string{"WriteFileFooter": "footer"}))
+		bad := ""
+		eachInstr(fn, func(in ssa.Instruction) {
+			st, ok := in.(*ssa.Store)
+			if !ok {
+				return
+			}
+			// a store into the metadata object (a field, or the whole value)
+			base := st.Addr
+			for {
+				switch x := base.(type) {
+				case *ssa.FieldAddr:
+					base = x.X
+					continue
+				case *ssa.IndexAddr:
+					base = x.X
+					continue
+				}
+				break
+			}
+			if base != md && (al == nil || base != ssa.Value(al)) {
+				return
+			}
+			if f := fl.Before(in); f != nil && f.May("call:footer") {
+				bad = w.instrPos(in) + " (" + deref(w.path(st.Addr)) + ")"
+			}
+		})
+		n++
+		r.check(bad == "", rule, baseName(name)+":no-store-after-footer", w.pos(fn.Pos()), "metadata untouched after the footer was written", baseName(name)+" changes the file's metadata after its footer was written, at "+bad+": the MetaStore is given metadata that differs from what the file records (e.g. without its file-level filters, so the file stage can no longer rule the file out and it is opened for every query)")
+	}
+	if n < 2 {
+		r.undecided(rule, "anchors", "-", "expected both file-writing functions")
 	}
 }
